@@ -664,3 +664,47 @@ for _n, _d in COMPARATORS.items():
         rej='%s is None' % _d['reader'], rewrites=[], entry=_d['entry'])
 COMPARATOR_ORDER = ['partial', 'caret', 'tilde', 'primitive']
 GRAMMAR_ORDER = GRAMMAR_ORDER + COMPARATOR_ORDER
+
+
+# ---- hyphen (nested `parser` + the wrapper), garbage, simple
+def hyphen_post_text():
+    req, post = post_of(grid_hyphen('lo', 'up'))
+    return 'pub open spec fn hyphen_post(lo: Option<Partial>, up: Partial, r: Option<BoundSet>) -> bool {\n        %s\n}\n' % post
+
+
+_HY_ACC = 'g_hyphen_ast(i@) matches Some(((lo, up), r)) && r == rest@ && exists|xl: Option<Partial>, xu: Partial| #[trigger] hyphen_post(xl, xu, o) && lower_is(xl, lo) && partial_is(xu, up) && wf_partial(xu)'
+_TERM = "alt_spec::<&'s str, &'s str, SemverParseError<&'s str>, _>((peek_spec::<&'s str, &'s str, SemverParseError<&'s str>, _>(space1::<SemverParseError<&'s str>>), peek_spec::<&'s str, &'s str, SemverParseError<&'s str>, _>(Literal { t: \"||\" }), eof::<SemverParseError<&'s str>>))"
+_TERM_FACTS = _lits2(('|', '|')) + """proof {
+        assert forall|a: Seq<char>| ws_span(a) > 0 <==> (a.len() > 0 && ws_char(a[0])) by { lemma_span_props(a, |c: char| ws_char(c)); }
+    }
+    """
+GRAMMAR['parser'] = dict(src='rng', custom=True, O='Option<BoundSet>', acc=_HY_ACC, rej='g_hyphen_ast(i@) is None', rewrites=[], entry=_lits('-') + _TERM_FACTS)
+GRAMMAR['hyphen'] = dict(src='rng', custom=True, O='Option<BoundSet>', acc=_HY_ACC, rej='g_hyphen_ast(i@) is None', rewrites=[], entry='')
+GRAMMAR['garbage'] = dict(
+    src='rng', O='Option<BoundSet>', acc='o is None && rest@ == i@.skip(term_pos(i@) as int)', rej='false',
+    rewrites=[("|_: ((), &str)| None", "|_x: ((), &'s str)| -> (r: Option<BoundSet>) ensures r is None { None }", 'R2 `_` closure parameter named, contract')],
+    entry=_TERM_FACTS + """let ghost tp = """ + _TERM + """;
+    proof {
+        assert(is_any_parser::<SemverParseError<&'s str>, _>(any::<SemverParseError<&'s str>>));
+        assert(is_term_parser::<SemverParseError<&'s str>, _>(tp));
+        assert forall|i: &'s str, n: nat, o2: &'s str, rest: &'s str| #[trigger] rt_acc::<&'s str, char, &'s str, SemverParseError<&'s str>, _, _>(any::<SemverParseError<&'s str>>, tp, i, n, o2, rest) implies rest@ == i@.skip(term_pos(i@) as int) by {
+            lemma_rt_garbage::<SemverParseError<&'s str>, _, _>(any::<SemverParseError<&'s str>>, tp, i, n, o2, rest);
+        }
+        assert forall|i: &'s str, n: nat| #[trigger] rt_rej::<&'s str, char, &'s str, SemverParseError<&'s str>, _, _>(any::<SemverParseError<&'s str>>, tp, i, n) implies false by {
+            lemma_rt_garbage_never_fails::<SemverParseError<&'s str>, _, _>(any::<SemverParseError<&'s str>>, tp, i, n);
+        }
+    }
+    """)
+
+
+def _applies(reader):
+    return '(%s matches Some((_, r)) && at_term(r))' % reader
+
+
+GRAMMAR['simple'] = dict(
+    src='rng', O='Option<BoundSet>',
+    acc=('if ' + _applies('g_hyphen_ast(i@)') + ' { hyphen_acc(i, o, rest) } else if ' + _applies('g_primitive_ast(i@)') + ' { primitive_acc(i, o, rest) } else if ' + _applies('g_partial(i@)')
+         + ' { partial_acc(i, o, rest) } else if ' + _applies('g_tilde_ast(i@)') + ' { tilde_acc(i, o, rest) } else if ' + _applies('g_caret_ast(i@)') + ' { caret_acc(i, o, rest) } else { garbage_acc(i, o, rest) }'),
+    rej='false', rewrites=[], entry=_TERM_FACTS)
+RTOP_ORDER = ['parser', 'hyphen', 'garbage', 'simple']
+GRAMMAR_ORDER = GRAMMAR_ORDER + RTOP_ORDER
